@@ -4,28 +4,33 @@
   interpreter; the `data` case is closed by the tactic of `Proofs/RsUpdater.lean`.
 -/
 import ClockBound.Proofs.RsNow
-import ClockBound.Proofs.RsLoop
-import ClockBound.Rs.EmbedDispatch
+import ClockBound.Proofs.RsTurn
+import ClockBound.Rs.EmbedTurn
 namespace ClockBound.Rs.DispatchProof
 open ClockBound ClockBound.Rs ClockBound.Generated ClockBound.Rs.DictPoller ClockBound.Rs.NowProof
 
 abbrev frW : Frame := ⟨"shm_writer", "", "()"⟩
 
-/-- what the loop goes on with after the updater handled a message (`none` = panic) -/
-def stepRes (next : St → Res) (log : List Value) (pos : Nat) (ev : Value) : Option (Updater × Record) → Res
-  | none => .panic
-  | some (u', r) => next (writerLoopSt true u' (log ++ [ev, recordValue r]) (pos + 1))
+/-- the state at the top of the loop of `process_messages` with updater state `u` (computed: `Rs.topSt`) -/
+abbrev topW (nowNs : Int) (inp : Nat → Value) (pre : List Stmt) (u : Updater) (log : List Value) (pos : Nat) : St :=
+  topSt (ctxP nowNs [] inp) Code.fn_shm_writer__process_messages (writerArgs u) pre log pos
 
-/-- one iteration of the loop body on the message `m` -/
+/-- what a turn amounts to after the updater handled a message (`none` = panic) -/
+def stepSpec (nowNs : Int) (inp : Nat → Value) (pre : List Stmt) (log : List Value) (pos : Nat) (ev : Value) :
+    Option (Updater × Record) → TurnSpec
+  | none => .panic
+  | some (u', r) => .next (topW nowNs inp pre u' (log ++ [ev, recordValue r]) (pos + 1))
+
+/-- ONE TURN of the loop of `process_messages` (however it is written) on the message `m` -/
 def DispStmt (nowNs : Int) (u : Updater) (m : WMsg) : Prop :=
-  ∀ (inp : Nat → Value) (log : List Value) (pos : Nat) (c : Expr) (body : List Stmt)
-    (_hfw : findWhile Code.fn_shm_writer__process_messages_stmts = some (c, body))
-    (_hin : inp pos = m.recvd) (N : Nat) (_hN : 100 ≤ N) (next : St → Res),
-    ((evalBlock N (ctxP nowNs [] inp) frW body (writerLoopSt true u log pos)).popTo 3).loopNext next
-    = match m.toMsg nowNs with
-      | none => next (writerLoopSt true u (log ++ [evRecv m.recvd]) (pos + 1))
-      | some msg =>
-        stepRes next log pos (evRecv m.recvd) (u.step msg)
+  ∀ (inp : Nat → Value) (log : List Value) (pos : Nat) (pre : List Stmt) (c : Expr) (body : List Stmt)
+    (_hfl : findLoop Code.fn_shm_writer__process_messages_stmts = some (pre, c, body))
+    (_hin : inp pos = m.recvd) (K : Nat) (_hK : 100 ≤ K),
+    turnIs (ctxP nowNs [] inp) frW c body K
+      (evalWhile (K + 2) (ctxP nowNs [] inp) frW c body (topW nowNs inp pre u log pos))
+      (match m.toMsg nowNs with
+       | none => .next (topW nowNs inp pre u (log ++ [evRecv m.recvd]) (pos + 1))
+       | some msg => stepSpec nowNs inp pre log pos (evRecv m.recvd) (u.step msg))
 
 /-- a block that is one trailing expression -/
 theorem evalBlock_single (n : Nat) (ctx : Ctx) (fr : Frame) (e : Expr) (st : St) :
@@ -33,35 +38,41 @@ theorem evalBlock_single (n : Nat) (ctx : Ctx) (fr : Frame) (e : Expr) (st : St)
   simp only [evalBlock]
   rfl
 
-/-- a `match` whose scrutinee evaluates to a value: the arms are run on THAT value.  (Used instead of
-    `simp [rs_eval]` on the whole `match`: simp normalises the continuation `fun v st => evalArms .. v st` for a
-    symbolic `v` before applying it, and the kernel does not get through the resulting term for the eight arms of
-    `process_messages`.) -/
-theorem eval_matchE_val (n : Nat) (ctx : Ctx) (fr : Frame) (s : Expr) (arms : List Arm) (st st' : St) (v : Value)
-    (h : eval n ctx fr s st = .val v st') :
-    eval (n + 1) ctx fr (.matchE s arms) st = evalArms n ctx fr arms v st' := by
+/-- a `match` whose scrutinee evaluates to a value: the arms are run on THAT value, in the state `f st` the
+    scrutinee leaves.  (Used instead of `simp [rs_eval]` on the whole `match`: simp normalises the continuation
+    `fun v st => evalArms .. v st` for a symbolic `v` before applying it, and the kernel does not get through the
+    resulting term for the arms of `process_messages`.) -/
+theorem eval_matchE_val (n : Nat) (ctx : Ctx) (fr : Frame) (s : Expr) (arms : List Arm) (st : St) (f : St → St)
+    (v : Value) (h : eval n ctx fr s st = .val v (f st)) :
+    eval (n + 1) ctx fr (.matchE s arms) st = evalArms n ctx fr arms v (f st) := by
   simp only [eval, h, Res.bind_val]
 
 set_option hygiene false in
 macro "disp_start" : tactic => `(tactic| (
-  intro inp log pos c body hfw hin N hN next
-  obtain ⟨M, rfl⟩ : ∃ M, N = M + 100 := ⟨N - 100, by omega⟩
-  simp [rs_eval, rs_code] at hfw
-  obtain ⟨rfl, rfl⟩ := hfw
-  simp only [ctxP, linuxUses_eq]
+  intro inp log pos pre c body hfl hin K hK
+  obtain ⟨M, rfl⟩ : ∃ M, K = M + 100 := ⟨K - 100, by omega⟩
+  simp [rs_eval, rs_code] at hfl
+  obtain ⟨rfl, rfl, rfl⟩ := hfl
+  simp only [ctxP, topW, linuxUses_eq]
   simp only [WMsg.recvd, WMsg.value, recvAbort] at hin
-  rw [evalBlock_single, eval_matchE_val (v := inp pos)
-    (st' := writerLoopSt true u (log ++ [evRecv (inp pos)]) (pos + 1))
-    (h := by simp [rs_eval, rs_code, writerLoopSt, contextValue])]))
+  -- the loop's condition holds at its top; its body is one `match` on what `recv()` returns (the next input)
+  rw [evalWhile_true (h := by simp [rs_eval, rs_code, writerArgs, contextValue, updaterValue, ctimespecValue]),
+    evalBlock_single,
+    eval_matchE_val (v := inp pos)
+      (f := fun st => { st with log := st.log ++ [evRecv (inp st.pos)], pos := st.pos + 1 })
+      (h := by simp [rs_eval, rs_code, writerArgs, contextValue, updaterValue, ctimespecValue])]
+  -- the rest of the loop as an opaque function (the loop body would be repeated in every leaf)
+  rw [turnIs_W]
+  generalize hW : evalWhile _ _ _ _ _ = W))
 
 macro "disp_tie" : tactic => `(tactic| (
-  simp (maxSteps := 400000) [rs_eval, chkInt, rs_code, writerLoopSt, contextValue, trackingValue, updaterValue,
-    ctimespecValue, WMsg.recvd, WMsg.value, WMsg.toMsg, *]
+  simp (maxSteps := 400000) [rs_eval, ↓eval_matchE_G, chkInt, rs_code, writerArgs, contextValue, trackingValue,
+    updaterValue, ctimespecValue, WMsg.recvd, WMsg.value, WMsg.toMsg, *]
   generalize hM : Updater.step _ _ = M
   repeat' split
   all_goals (subst hM; try simp [Updater.step, extractBound, boundF, classify, leapClass, Updater.record, chk,
-    inI64, I64_MIN, I64_MAX, stepRes, writerLoopSt, contextValue, dispatchBox, receiver, updaterValue, recordValue,
-    ctimespecValue, statusValue, statusName, *])
+    inI64, I64_MIN, I64_MAX, stepSpec, turnIsW_panic, turnIsW_next, rs_eval, rs_code, writerArgs, contextValue,
+    dispatchBox, receiver, updaterValue, recordValue, ctimespecValue, statusValue, statusName, *])
   -- comparisons may come in another normal form than the model's (`x < 3` for `x ≤ 2`): split what is left
   all_goals (try (split_ifs <;> first | rfl | omega | simp_all))))
 
@@ -99,16 +110,24 @@ theorem disp_ignored (nowNs : Int) (u : Updater) (v : String) (args : List Value
   simp [handledVariant] at hv
   obtain ⟨⟨⟨⟨⟨h1, h2⟩, h3⟩, h4⟩, h5⟩, h6⟩ := hv
   disp_start
-  simp (maxSteps := 400000) [rs_eval, rs_code, writerLoopSt, contextValue, WMsg.recvd, WMsg.value, WMsg.toMsg, *]
+  simp (maxSteps := 400000) [rs_eval, ↓eval_matchE_G, rs_code, writerArgs, contextValue, updaterValue, ctimespecValue,
+    WMsg.recvd, WMsg.value, WMsg.toMsg, turnIsW_next, *]
 
-/-- `Ok(Message::ThreadAbort)` clears `keep_running`; nothing is written -/
-theorem disp_abort (nowNs : Int) (u : Updater) (inp : Nat → Value) (log : List Value) (pos : Nat) (c : Expr)
-    (body : List Stmt) (hfw : findWhile Code.fn_shm_writer__process_messages_stmts = some (c, body))
-    (hin : inp pos = recvAbort) (N : Nat) (hN : 100 ≤ N) (next : St → Res) :
-    ((evalBlock N (ctxP nowNs [] inp) frW body (writerLoopSt true u log pos)).popTo 3).loopNext next
-    = next (writerLoopSt false u (log ++ [evRecv recvAbort]) (pos + 1)) := by
-  revert inp log pos c body hfw hin N hN next
+/-- `Ok(Message::ThreadAbort)` ends the loop; nothing is written -/
+theorem disp_abort (nowNs : Int) (u : Updater) (inp : Nat → Value) (log : List Value) (pos : Nat) (pre : List Stmt)
+    (c : Expr) (body : List Stmt)
+    (hfl : findLoop Code.fn_shm_writer__process_messages_stmts = some (pre, c, body))
+    (hin : inp pos = recvAbort) (K : Nat) (hK : 100 ≤ K) :
+    turnIs (ctxP nowNs [] inp) frW c body K
+      (evalWhile (K + 2) (ctxP nowNs [] inp) frW c body (topW nowNs inp pre u log pos))
+      (.done (log ++ [evRecv recvAbort]) (pos + 1)) := by
+  revert inp log pos pre c body hfl hin K hK
   disp_start
-  simp (maxSteps := 400000) [rs_eval, rs_code, writerLoopSt, contextValue, recvAbort, *]
+  simp (maxSteps := 400000) [rs_eval, ↓eval_matchE_G, rs_code, writerArgs, contextValue, updaterValue, ctimespecValue,
+    recvAbort, turnIsW_done, *]
+  -- when the loop ends because a flag was cleared: one more evaluation of its condition
+  first
+    | done
+    | (rw [← hW, evalWhile_false (h := by simp [rs_eval])]; simp [rs_eval, St.popTo])
 
 end ClockBound.Rs.DispatchProof
